@@ -2,6 +2,10 @@ import VlsModel.Model.Onchain
 import VlsModel.Gen.FnSimple
 import VlsModel.Gen.FnOnchainTx
 import VlsModel.Gen.FnTxUtilC08
+import VlsModel.Gen.FnDerive
+import VlsModel.Gen.FnNodeWallet
+import VlsModel.Lemmas.NodeWalletFn
+import VlsModel.Model.Wallet
 import VlsModel.Lemmas.FnGen
 /-
 C08 — `Onchain.beneficialValue` (the fee bound of `sign_onchain_tx`) proved equal to the body of
@@ -280,7 +284,7 @@ theorem sumInputs_le (vals : List Nat) (acc s : Nat) (ha : acc ≤ U64.MAX) (h :
 
 /-- `validate_beneficial_value` as translated inside this unit (same text as in `Gen/FnSimple.lean`) -/
 theorem beneficial_eq (p : Policy) (sumIn sumOut weight : Nat) (hin : sumIn ≤ Rs.U64_MAX) :
-    Gen.FnOnchainTx.SimpleValidator.validate_beneficial_value (filtP p.flt) (toVTx p) sumIn sumOut weight
+    Gen.FnOnchainTx.SimpleValidator.validate_beneficial_value (policy_filter_err := filtP p.flt) (toVTx p) sumIn sumOut weight
       = enc (beneficialValue p sumIn sumOut weight) := by
   unfold Gen.FnOnchainTx.SimpleValidator.validate_beneficial_value beneficialValue impliedFeerate U64.checkedSub
   simp only [Rs.okOr, Rs.ucheckedSub]
@@ -320,7 +324,7 @@ theorem tail_eq (p : Policy) (r : Req) (w : Nat) (L : LoopRes) :
                 (fun sum_inputs val =>
                   Rs.okOr (Rs.ucheckedAdd Rs.U64_MAX sum_inputs val) "policy-onchain-fee-range" >>= fun t_15 => pure t_15)
                 0 r.inValues
-          Gen.FnOnchainTx.SimpleValidator.validate_beneficial_value (filtP p.flt) (toVTx p) sum_inputs __x.fst w)
+          Gen.FnOnchainTx.SimpleValidator.validate_beneficial_value (policy_filter_err := filtP p.flt) (toVTx p) sum_inputs __x.fst w)
       = enc (match L with
              | .panic => .panic
              | .err t => .err t
@@ -353,8 +357,9 @@ theorem tail_eq (p : Policy) (r : Req) (w : Nat) (L : LoopRes) :
 /-- **`validate_onchain_tx` = `Onchain.validateOnchain`**, for every policy (filter, dev flag, max feerate), request
     (version, size, inputs, segwit flags, outputs with their wallet / allowlist / channel facts) and weight -/
 theorem C08_fn_validate_onchain_tx (p : Policy) (r : Req) (w : Nat) (opaths : List Nat) (hop : OpathsOf r opaths) :
-    Gen.FnOnchainTx.SimpleValidator.validate_onchain_tx (filtP p.flt) (fun _ => r.baseSize) (nonMalleableE r) id canSpendE allowE 0
-        (fun keys _ => keys) (toVTx p) () (channelsOf r) (toTx r) r.segwit r.inValues opaths w
+    Gen.FnOnchainTx.SimpleValidator.validate_onchain_tx (policy_filter_err := filtP p.flt) (ext_base_size := fun _ => r.baseSize)
+        (ext_is_tx_non_malleable := nonMalleableE r) (ext_len := id) (ext_can_spend := canSpendE) (ext_allowlist_contains := allowE)
+        (ext_master_path := 0) (ext_funding_script_pubkey := fun keys _ => keys) (toVTx p) () (channelsOf r) (toTx r) r.segwit r.inValues opaths w
       = enc (validateOnchain p r w) := by
   obtain ⟨hlen, hop⟩ := hop
   unfold Gen.FnOnchainTx.SimpleValidator.validate_onchain_tx
@@ -490,5 +495,51 @@ theorem C08_fn_validate_onchain_tx (p : Policy) (r : Req) (w : Nat) (opaths : Li
               true_and, and_false, enc, Rs.fail, Tag.name] <;> rfl
         · simp [c3, enc, bind, Except.bind]
 
+
+/-! ## `KeyDerivationStyle::get_key_path_len` (the path-length rule of `get_wallet_pubkey`, hence of `can_spend`) -/
+
+def toStyle : Wallet.Style → Gen.FnDerive.KeyDerivationStyle
+  | .native => .Native | .ldk => .Ldk | .lnd => .Lnd
+
+theorem C08_fn_get_key_path_len (st : Wallet.Style) :
+    Gen.FnDerive.KeyDerivationStyle.get_key_path_len (toStyle st) = st.keyPathLen := by
+  cases st <;> rfl
+
+/-! ## `impl Wallet for Node`: `can_spend`, `allowlist_contains` (+ `get_wallet_pubkey` / `get_wallet_privkey`), node.rs
+
+`Gen/FnNodeWallet.lean` is the regenerated text of the four functions.  Instantiation of the externals: keys and scripts are
+the structured values of `Model/Wallet.lean` (`account_privkey_at path` = `Key.account path`, `pubkey_of` = identity,
+`xpub_child j path` = `xpubKey j path` unless the path has a hardened component (`derive_pub` fails), the four address
+constructors = `Script.addr kind`, `script_pubkey()` = identity), `get_key_path_len` = `Style.keyPathLen` (itself tied to
+derive.rs above).  The allowlist is a `BTreeSet` in the code; the generated loop runs over the representing list *as given* and
+the theorem holds for every list, so the iteration order is immaterial. -/
+section NodeWallet
+open VlsModel.Wallet VlsModel.Wallet.Fn
+open VlsModel.Gen.FnNodeWallet (Node)
+
+/-- **`Node::can_spend` = `Wallet.canSpend`** (`Err` = the `invalid_argument` of `get_wallet_privkey`); proof in
+    Lemmas/NodeWalletFn.lean -/
+theorem C08_fn_can_spend (style : Style) (allow : List Wallet.Allowable) (path : List Nat) (s : Script) :
+    Node.can_spend (ext_len := List.length) (ext_get_key_path_len := Style.keyPathLen)
+        (ext_account_privkey_at := fun p => Key.account p) (ext_pubkey_of := fun k => k)
+        (ext_addr_p2wpkh := fun k => Script.addr .p2wpkh k) (ext_addr_p2shwpkh := fun k => Script.addr .p2shwpkh k)
+        (ext_addr_p2tr := fun k => Script.addr .p2tr k) (ext_script_pubkey := fun a => a)
+        (toNode style allow) path s
+      = match canSpend style path s with
+        | some b => .ok b
+        | none => .error (.err "invalid-argument") := can_spend_eq style allow path s
+
+/-- **`Node::allowlist_contains` = `Wallet.allowlistContains`**, for every allowlist in every order -/
+theorem C08_fn_allowlist_contains (style : Style) (allow : List Wallet.Allowable) (path : List Nat) (s : Script) :
+    Node.allowlist_contains (ext_is_empty := List.isEmpty) (ext_xpub_child := xpubChildE)
+        (ext_addr_p2wpkh := fun k => Script.addr .p2wpkh k) (ext_script_pubkey := fun a => a)
+        (ext_addr_p2pkh := fun k => Script.addr .p2pkh k) (ext_addr_p2tr := fun k => Script.addr .p2tr k)
+        (toNode style allow) s path
+      = match allowlistContains allow s path with
+        | .yes => .ok true
+        | .no => .ok false
+        | .panic => .error .panic := allowlist_contains_eq style allow path s
+
+end NodeWallet
 
 end VlsModel.Props.C08Fn
